@@ -251,6 +251,69 @@ pub fn run(ctx: &Ctx) -> i32 {
             });
         }
     });
+    // structural deviations of whole finder/clock/alignment segments: every side of every region,
+    // all 48 sizes: inverted, inverted without its end modules, all dark, all light, phase shifted,
+    // every inverted prefix and suffix
+    let mut chunks = Vec::new();
+    for si in 0..48 {
+        let sy = &SYMBOLS[si];
+        let (rh, rw) = (sy.reg_rows + 2, sy.reg_cols + 2);
+        for rv in 0..sy.reg_v {
+            for rhz in 0..sy.reg_h {
+                let (r0, c0) = (rv * rh, rhz * rw);
+                let top: Vec<usize> = (0..rw).map(|c| r0 * sy.cols + c0 + c).collect();
+                let bottom: Vec<usize> = (0..rw).map(|c| (r0 + rh - 1) * sy.cols + c0 + c).collect();
+                let left: Vec<usize> = (0..rh).map(|r| (r0 + r) * sy.cols + c0).collect();
+                let right: Vec<usize> = (0..rh).map(|r| (r0 + r) * sy.cols + c0 + rw - 1).collect();
+                for seg in [top, bottom, left, right] {
+                    chunks.push((si, seg));
+                }
+            }
+        }
+    }
+    ctx.par(chunks.len() as u64, |c, w| {
+        let (si, seg) = &chunks[c as usize];
+        let sy = &SYMBOLS[*si];
+        w.label(|| format!("segment deviations {} from pixel {}", sy.name(), seg[0]));
+        let contents = cw_contents(*si);
+        let base = ref_bitmap(&refs[*si], &contents[4]);
+        let n = seg.len();
+        let cur: Vec<bool> = seg.iter().map(|i| base[*i]).collect();
+        let mut variants: Vec<Vec<bool>> = Vec::new();
+        variants.push(cur.iter().map(|b| !b).collect());
+        variants.push((0..n).map(|k| if k == 0 || k == n - 1 { cur[k] } else { !cur[k] }).collect());
+        variants.push((0..n).map(|k| if k == 0 { cur[k] } else { !cur[k] }).collect());
+        variants.push((0..n).map(|k| if k == n - 1 { cur[k] } else { !cur[k] }).collect());
+        variants.push(vec![true; n]);
+        variants.push(vec![false; n]);
+        variants.push((0..n).map(|k| cur[(k + 1) % n]).collect());
+        variants.push((0..n).map(|k| k % 2 == 0).collect());
+        variants.push((0..n).map(|k| k % 2 == 1).collect());
+        for p in 1..n {
+            variants.push((0..n).map(|k| if k < p { !cur[k] } else { cur[k] }).collect());
+            variants.push((0..n).map(|k| if k >= p { !cur[k] } else { cur[k] }).collect());
+        }
+        let mut px = base.clone();
+        for v in variants {
+            for (k, i) in seg.iter().enumerate() {
+                px[*i] = v[k];
+            }
+            let valid = px == base;
+            w.check((*si * 10 + 4) as u64, || pdesc(&px, sy.cols), |st| {
+                let before = st.counters.get("accepted").copied().unwrap_or(0);
+                eval_pixels(&px, sy.cols, st)?;
+                let accepted = st.counters.get("accepted").copied().unwrap_or(0) > before;
+                if accepted != valid {
+                    return Err(format!("deviation of a whole finder/clock/alignment segment is {}", if accepted { "accepted" } else { "rejected although it is the valid pattern" }));
+                }
+                st.count("nontrivial");
+                Ok(())
+            });
+        }
+        for (k, i) in seg.iter().enumerate() {
+            px[*i] = cur[k];
+        }
+    });
     // lattice of (width, length), uniform contents
     ctx.par(151, |c, w| {
         let width = c as usize;
@@ -273,7 +336,7 @@ pub fn run(ctx: &Ctx) -> i32 {
         "distinct_nontrivial": ctx.counter("nontrivial"),
         "rule": format!("forward: 48 sizes x (zero, ones, checker, 3 LCG contents, every single data module): bitmap() == reference rendering (R3+R4), try_from_bits returns the same content and size. \
 Converse, deviation-bounded from valid symbols: every single-module flip of 3 valid symbols of every size (data flip must be accepted, finder/alignment/fixed-corner flip rejected), every double flip for sizes up to {} modules, \
-all 2^12 patterns of every group of 12 consecutive finder/alignment modules for sizes up to {} modules: accepted => re-rendering is identical bit for bit. Lattice: width 0..=150 x height 0..=150 x lengths (w*h, w*h+1, w*h+w-1) x 2 uniform fills: \
+all 2^12 patterns of every group of 12 consecutive finder/alignment modules for sizes up to {} modules; structural deviations of every side of every region of all 48 sizes (inverted, inverted without end modules, all dark, all light, phase shifted, every inverted prefix and suffix): accepted => re-rendering is identical bit for bit. Lattice: width 0..=150 x height 0..=150 x lengths (w*h, w*h+1, w*h+w-1) x 2 uniform fills: \
 ZeroWidth / DataSize / SymbolSize with that precedence. All cases distinct; non-trivial = forward cases and deviation cases.", limit, lim),
         "exhaustive": true,
         "accepted": ctx.counter("accepted"),
